@@ -17,7 +17,7 @@ def run(tier, rep):
             tasks.append(dict(src=s, dynamic=True, modes=(("GENERATIONAL", "TOPOLOGICAL")[(i + sd) % 2], ("MCS", "TOPOLOGICAL", "GENERATIONAL")[(i + sd) % 3]), prunes=(bool((i + sd) % 2),), seed=sd))
         else:
             tasks.append(dict(src=s, dynamic=dyn, seed=sd))
-    with Pool() as pool:
+    with Pool(maxtasks=6) as pool:
         results = list(pool.imap("vf.compiled_tasks", "c08_task", tasks))
     _collect(rep, results, "buffers")
     rep.add(traces=sum(r["traces"] for r in results))
